@@ -71,4 +71,10 @@ Section Lemmas.
   Qed.
   Lemma bind_ret_l {A B} (a : A) (f : A -> M Ev B) : bind (ret a) f = f a.
   Proof. unfold bind, ret. destruct (f a). reflexivity. Qed.
+  Lemma bind_assoc {A B C} (m : M Ev A) (f : A -> M Ev B) (g : B -> M Ev C) :
+    bind (bind m f) g = bind m (fun a => bind (f a) g).
+  Proof.
+    unfold bind. destruct m as [[a|e|] t]; try reflexivity.
+    destruct (f a) as [[b|e|] t2]; try reflexivity. destruct (g b) as [r t3]. rewrite app_assoc. reflexivity.
+  Qed.
 End Lemmas.
